@@ -347,6 +347,11 @@ static void on_fault(int sig, siginfo_t *si, void *ctx)
     g_describe(si->si_addr, d, sizeof d);
     int n = snprintf(line, sizeof line, "FAULT %ld sig=%d addr=%p %s\n", mon_case_idx, sig, si->si_addr, d);
     wr(line, (size_t)n);
+#if defined(__SANITIZE_THREAD__)
+    /* ThreadSanitizer's own deadly-signal handling can spin for minutes when several
+     * threads fault at once; the FAULT line above is all the orchestrator needs */
+    _exit(128 + sig);
+#endif
     struct sigaction *o = sig == SIGSEGV ? &old_segv : sig == SIGBUS ? &old_bus : &old_fpe;
     if ((o->sa_flags & SA_SIGINFO) && o->sa_sigaction) { o->sa_sigaction(sig, si, ctx); }
     signal(sig, SIG_DFL);
